@@ -760,8 +760,13 @@ def get_structure_factor(
         )
 
     # do the n-dimensional Fourier transform and calculate the structure factor
-    f1 = np_fftn(scalar_field.data, norm="ortho").flat[1:]
-    flat_data = scalar_field.data.flat
+    data = scalar_field.data
+    if not np.issubdtype(data.dtype, np.inexact):
+        # boolean and integer fields need to be converted, since their products would
+        # otherwise be evaluated with logical or (overflowing) integer arithmetic
+        data = data.astype(float)
+    f1 = np_fftn(data, norm="ortho").flat[1:]
+    flat_data = data.flat
     sf = np.abs(f1) ** 2 / np.dot(flat_data, flat_data)
 
     # an alternative calculation of the structure factor is
